@@ -158,7 +158,7 @@ def write_evidence(prop, spec, tier, seed, reports, ctx, wall, n_viol, n_known, 
                 assumptions.append(a)
     level = spec['level']
     cov = {
-        'explanation': spec['explanation'],
+        'explanation': spec['explanation'] + ' Rules armed in this run - ' + '; '.join(f"{r['rule']}: {r['title']}" for r in rules_out) + '.',
         'evaluations': max(evaluations, 1),
         'distinct_nontrivial': distinct,
         'rule': 'one evaluation per rule instance (a site of the kind the rule is about: call site, '
